@@ -113,6 +113,7 @@ def stressors(rng):
     out.append(("macro-backslash", "#define P \"C:\\dir\\1\"\n#define F() 42\n#define G(a,b) a\\b\nprogram p\n print *, P, F(), G(1,2)\nend program p\n"))
     out.append(("macro-self", "#define X X\n#define A B\n#define B A\n#if X\n#endif\n#if A\n#endif\nprogram p\n i = X + A\nend program p\n"))
     out.append(("macro-regex", "#define R(a) [a]*+?{a}^$|.\nprogram p\n i = R(1)\nend program p\n"))
+    out.append(("self-include", "#include \"@SELF@\"\n#include \"@SELF@\"\nsubroutine si()\n  include '@SELF@'\nend subroutine si\n"))
     out.append(("procedure-outside", "procedure(foo) :: bar\nprocedure :: baz\n"))
     out.append(("end-only", "end\nend\nend subroutine\nend module\ncontains\nend type\nend interface\n"))
     out.append(("many-ends", "module m\ncontains\n" + "end\n" * 30))
